@@ -78,6 +78,13 @@ func (t *TM) Votes(bo *BlockOp) []abci.VoteInfo {
 	for i, v := range vs {
 		out = append(out, abci.VoteInfo{Validator: abci.Validator{Address: v.Address, Power: v.VotingPower}, SignedLastBlock: !(bo.AllAbsent || absent[i])})
 	}
+	if bo.DupVote && len(out) > 0 {
+		out = append(out, out[0])
+	}
+	for _, x := range bo.ExtraVotes {
+		a := TmAddr(ValKey(7000 + mod(x, 100)))
+		out = append(out, abci.VoteInfo{Validator: abci.Validator{Address: a[:], Power: 1 + x%5}, SignedLastBlock: x%2 == 0})
+	}
 	return out
 }
 
